@@ -142,6 +142,7 @@ IDIOMS = [
     ('R2.split_last_ref', r'let \(&([a-z_0-9]+), ([a-z_0-9]+)\) = ([^;]*?)\.split_last\(\)\.unwrap\(\);',
      r'let (\1__r, \2) = \3.split_last().unwrap(); let \1 = *\1__r;'),
     # R3 debug_assert_eq / _ne  (message dropped)
+    ('R3.debug_assert_eq_carry', r'debug_assert_eq!\(carry, &0\);', r'debug_assert!(*carry == 0);'),
     ('R3.debug_assert_eq', r'debug_assert_eq!\(([^,;]+), ([^,;]+)\);', r'debug_assert!(\1 == \2);'),
     ('R3.debug_assert_ne', r'debug_assert_ne!\(([^,;]+), ([^,;]+)\);', r'debug_assert!(\1 != \2);'),
     # R4 the intended panic
@@ -508,6 +509,17 @@ class Repo:
                 raise GenError('%s: expected one fn %s, found %d' % (entry.key, name, len(c)))
             a, b = ln(c[0])
             return [Located(c[0].text(), entry.file, a, b)]
+        if loc[0].startswith('include '):
+            # R9: an `include!(concat!(env!("OUT_DIR"), "/<name>"))` of build.rs output; the item must exist,
+            # its text is replaced by the symbolic definition given in the contract entry
+            name = loc[0][8:].strip()
+            c = [it for it in items if it.kind == 'macro_call' and it.name == 'include' and name in it.text()]
+            if len(c) != 1:
+                raise GenError('%s: expected one include of %s, found %d' % (entry.key, name, len(c)))
+            a, b = ln(c[0])
+            L = Located('', entry.file, a, b)
+            L.sha = hashlib.sha256(c[0].text().encode()).hexdigest()
+            return [L]
         if loc[0].startswith(('struct ', 'enum ')):
             kind, name = loc[0].split()
             c = [it for it in items if it.kind == kind and it.name == name]
